@@ -43,7 +43,8 @@ pub fn gen_name(src: &mut Src) -> String {
     // one name in six comes from a small pool, so that names coincide: two macros, a macro and its pin, a layer
     // and a via, names that differ only in case
     if src.prob(1, 6) {
-        return src.pick(&["a", "A", "aa", "m1", "M1", "VDD", "vdd", "core", "x1", "a[0]", "a<0>"]).to_string();
+        // (... and words that some number parsers take for numbers)
+        return src.pick(&["a", "A", "aa", "m1", "M1", "VDD", "vdd", "core", "x1", "a[0]", "a<0>", "inf", "NaN", "Infinity", "e5", "x1e5"]).to_string();
     }
     let n = src.usize_in(1, 10);
     let mut s = String::new();
@@ -176,13 +177,22 @@ fn opt<T>(src: &mut Src, num: u64, den: u64, f: impl FnOnce(&mut Src) -> T) -> O
         None
     }
 }
+/// Property names: half from a small pool, so that a PROPERTY meets the definition of its name (of any type
+/// and object class) and two definitions share a name across object classes
+fn gen_prop_name(src: &mut Src) -> String {
+    if src.bool() {
+        src.pick(&["vendor", "drive", "p1", "LEF58_TYPE", "a"]).to_string()
+    } else {
+        gen_name(src)
+    }
+}
 fn gen_property(src: &mut Src) -> LefProperty {
     let value = match src.below(3) {
         0 => gen_name(src),
         1 => spell_plain(&gen_dec(src)),
         _ => gen_string_literal(src),
     };
-    LefProperty { name: gen_name(src), value }
+    LefProperty { name: gen_prop_name(src), value }
 }
 fn gen_symmetry(src: &mut Src) -> Vec<LefSymmetry> {
     let n = src.usize_in(0, 3); // `SYMMETRY ;` (no values) is distinct from no statement
@@ -334,7 +344,7 @@ fn gen_site(src: &mut Src) -> LefSite {
 fn gen_propdef(src: &mut Src) -> LefPropertyDefinition {
     use LefPropertyDefinitionObjectType as T;
     let ot = *src.pick(&[T::Layer, T::Library, T::Macro, T::NonDefaultRule, T::Pin, T::Via, T::ViaRule]);
-    let name = gen_name(src);
+    let name = gen_prop_name(src);
     match src.below(3) {
         0 => LefPropertyDefinition::LefString(ot, name, opt(src, 1, 2, gen_string_literal)),
         k => {
